@@ -113,6 +113,9 @@ Section Havoc.
         Some {| h_norm := []; h_bad := existsb (fun s => existsb anil (hvals s a)) S |}
     | SReturn2 a _ =>
         Some {| h_norm := []; h_bad := existsb (fun s => existsb anil (hvals s a)) S |}
+    | SRetCall _ _ _ =>
+        (* the callee's result is not known here: it may be nil *)
+        Some {| h_norm := []; h_bad := match S with [] => false | _ => true end |}
     | SCall2 _ x xe _ _ =>
         let S1 := match x with
                   | Some y => fold_right (st_add vars) [] (flat_map (fun s => assign_all vars s y [VNil; VPtr None]) S)
@@ -158,6 +161,7 @@ Fixpoint lstmt (st : stmt) : list nat :=
   | SReturn a => latom a
   | SConv x _ _ => lvar x
   | SReturn2 a e => latom a ++ latom e
+  | SRetCall _ _ args => flat_map latom args
   | SCall2 _ x xe _ args => match x with Some y => lvar y | None => [] end ++ match xe with Some y => lvar y | None => [] end ++ flat_map latom args
   | SCallI _ _ x xi _ _ args => match x with Some y => lvar y | None => [] end ++ lvar xi ++ flat_map latom args
   end.
